@@ -391,14 +391,19 @@ def token_spec(rng, idx):
                             "over": cont_over(), "depth": 2})
             for _ in range(rng.randint(1, 2)):
                 add_fn("    ", allow_overload=False)
-    return {"lib": lib, "c": wc, "fortran": wf, "entries": entries}
+    # the documented top-level "namespace:" field: every declaration lives in an initial namespace, and
+    # wrapping starts below the library node (library.wrap_namespace)
+    topns = "zq%dtop" % idx if rng.random() < 0.3 else None
+    return {"lib": lib, "c": wc, "fortran": wf, "entries": entries, "topns": topns}
 
 
 def render_token_library(spec, wp, wl):
     """Return (yaml text, library flags, tokens) or None if a declaration falls outside the domain."""
     lf = {"c": spec["c"], "fortran": spec["fortran"], "python": wp, "lua": wl}
-    lines = list(synth.COPYRIGHT) + ["library: %s" % spec["lib"], "cxx_header: %s.hpp" % spec["lib"], "options:",
-                                     "  debug: True"]
+    lines = list(synth.COPYRIGHT) + ["library: %s" % spec["lib"], "cxx_header: %s.hpp" % spec["lib"]]
+    if spec.get("topns"):
+        lines.append("namespace: %s" % spec["topns"])
+    lines += ["options:", "  debug: True"]
     for lang in LANGS:
         lines.append("  wrap_%s: %s" % (lang, lf[lang]))
     lines.append("declarations:")
